@@ -96,7 +96,16 @@ func (s *JavaRefactorListener) EnterClassOrInterfaceType(ctx *ClassOrInterfaceTy
 }
 
 func (s *JavaRefactorListener) EnterAnnotation(ctx *AnnotationContext) {
-	annotation := ctx.QualifiedName().GetText()
+	annotation := ""
+	if ctx.QualifiedName() != nil {
+		annotation = ctx.QualifiedName().GetText()
+	} else if alt, ok := ctx.AltAnnotationQualifiedName().(*AltAnnotationQualifiedNameContext); ok {
+		// `pkg.@Name` in front of a type: the annotation is the last identifier
+		identifiers := alt.AllIdentifier()
+		annotation = identifiers[len(identifiers)-1].GetText()
+	} else {
+		return
+	}
 
 	startLine := ctx.GetStart().GetLine()
 	stopLine := ctx.GetStop().GetLine()
